@@ -241,6 +241,7 @@ type outcome struct {
 	calls       []call
 	headID      uint64
 	storeBefore H
+	subjBefore  H // Syncer.Head() right before the delivery
 	storeAfter  uint64
 	now         time.Time
 }
@@ -259,8 +260,16 @@ const maxBudget = 4000
 func bound(D uint64) int { return int((D + 1) * uint64(bits.Len64(D)+1)) }
 
 func (w *world) run(sc *scen) outcome {
+	return w.runSeq(sc.S, sc.Pre, []*scen{sc})[0]
+}
+
+// runSeq delivers the candidates of the given steps, in order, to ONE Syncer whose Store holds 1..S
+// (after the optional prelude candidate chain[pre]); the getter's fault script (overrides, request
+// budget, request counter) is that of the current step. Every delivery is observed on its own:
+// subjective head and Store head before, verdict / answer, requests, heads afterwards.
+func (w *world) runSeq(S, pre uint64, steps []*scen) []outcome {
 	t := w.t
-	ctx, cancel := context.WithTimeout(context.Background(), time.Hour)
+	ctx, cancel := context.WithTimeout(context.Background(), 100*time.Hour)
 	defer cancel()
 	st, err := store.NewStore[H](dssync.MutexWrap(datastore.NewMapDatastore()))
 	if err != nil {
@@ -269,19 +278,28 @@ func (w *world) run(sc *scen) outcome {
 	if err := st.Start(ctx); err != nil {
 		t.Fatal(err)
 	}
-	if err := st.Append(ctx, w.chain[1:sc.S+1]...); err != nil {
+	if err := st.Append(ctx, w.chain[1:S+1]...); err != nil {
 		t.Fatal(err)
 	}
 	if err := st.Sync(ctx); err != nil {
 		t.Fatal(err)
 	}
-	g := &getter{chain: w.chain, lo: 1, hi: uint64(len(w.chain) - 1), over: sc.Over, budget: sc.Budget, reg: w.reg}
+	subj0 := S
+	if pre > S {
+		subj0 = pre
+	}
+	g := &getter{chain: w.chain, lo: 1, hi: uint64(len(w.chain) - 1), budget: 0, reg: w.reg}
 	sub := &fakeSub{}
 	recency := 1000 * time.Hour
-	if sc.Head {
+	anyHead := false
+	for _, sc := range steps {
+		anyHead = anyHead || sc.Head
+	}
+	if anyHead {
 		// the subjective head (and everything below) is not recent, every header above it is:
-		// Syncer.Head() then asks the getter for the network head, and only then
-		recency = time.Now().Sub(time.Unix(0, w.chain[sc.subj()].T)) - 500*time.Millisecond
+		// Syncer.Head() then asks the getter for the network head, and only then. Later deliveries
+		// move the (virtual) clock forward by as much as the subjective head has moved up.
+		recency = time.Now().Sub(time.Unix(0, w.chain[subj0].T)) - 500*time.Millisecond
 	}
 	sy, err := hsync.NewSyncer[H](g, st, sub,
 		hsync.WithBlockTime(time.Second),
@@ -293,77 +311,97 @@ func (w *world) run(sc *scen) outcome {
 		t.Fatal(err)
 	}
 	g.syncer = sy
-	vhdr.SetPolicy(sc.Pol.policy())
+	vhdr.SetPolicy(steps[0].Pol.policy())
 	if err := sy.Start(ctx); err != nil {
 		t.Fatal(err)
 	}
 	if sub.verifier == nil {
 		t.Fatal("Syncer did not register a verifier with its Subscriber")
 	}
-	if hd, err := sy.Head(ctx); err != nil || hd.H != sc.S {
+	if hd, err := sy.Head(ctx); err != nil || hd.H != S {
 		t.Fatalf("subjective head before delivery: %v %v", hd, err)
 	}
-	if sc.Pre > sc.S {
-		if err := sub.verifier(ctx, w.chain[sc.Pre]); err != nil {
-			t.Fatalf("prelude candidate %d not accepted directly: %v", sc.Pre, err)
+	if pre > S {
+		if err := sub.verifier(ctx, w.chain[pre]); err != nil {
+			t.Fatalf("prelude candidate %d not accepted directly: %v", pre, err)
 		}
-		if hd, err := sy.Head(ctx); err != nil || hd.H != sc.Pre {
+		if hd, err := sy.Head(ctx); err != nil || hd.H != pre {
 			t.Fatalf("subjective head after prelude: %v %v", hd, err)
 		}
 	}
 	if len(g.calls) != 0 {
 		t.Fatalf("getter used before delivery: %v", g.calls)
 	}
-	if err := st.Sync(ctx); err != nil {
-		t.Fatal(err)
-	}
-	sb, err := st.Head(ctx)
-	if err != nil {
-		t.Fatal(err)
-	}
-	out := outcome{now: time.Now(), storeBefore: sb}
-	func() {
-		defer func() {
-			if r := recover(); r != nil {
-				out.verdict = "VPanic"
-				t.Logf("delivery panicked on %s: %v", sc.Class, r)
+	outs := make([]outcome, 0, len(steps))
+	for _, sc := range steps {
+		vhdr.SetPolicy(sc.Pol.policy())
+		sbj, err := sy.Head(ctx)
+		if err != nil || sbj == nil {
+			t.Fatalf("%s: subjective head before delivery: %v", sc.Class, err)
+		}
+		if sc.Head {
+			// make the current subjective head the newest header that is not recent
+			if d := time.Duration(sbj.T+int64(recency)+int64(500*time.Millisecond)) - time.Duration(time.Now().UnixNano()); d > 0 {
+				time.Sleep(d)
+			}
+		}
+		g.mu.Lock()
+		g.over, g.budget, g.n, g.calls = sc.Over, sc.Budget, 0, nil
+		g.mu.Unlock()
+		if err := st.Sync(ctx); err != nil {
+			t.Fatal(err)
+		}
+		sb, err := st.Head(ctx)
+		if err != nil {
+			t.Fatal(err)
+		}
+		out := outcome{now: time.Now(), storeBefore: sb, subjBefore: sbj}
+		func() {
+			defer func() {
+				if r := recover(); r != nil {
+					out.verdict = "VPanic"
+					t.Logf("delivery panicked on %s: %v", sc.Class, r)
+				}
+			}()
+			if sc.Head {
+				g.mu.Lock()
+				g.armed, g.candidate, g.trusted = true, sc.New, nil
+				g.mu.Unlock()
+				out.verdict = "VOther" // not observable on this path
+				hd, err := sy.Head(ctx)
+				if err != nil || hd == nil {
+					t.Logf("Syncer.Head failed on %s: %v", sc.Class, err)
+					out.verdict = "VPanic"
+				} else {
+					out.ret = w.reg.ID(hd.Hash())
+				}
+				if g.armed || g.trusted != sbj {
+					t.Fatalf("%s: head request not made with the subjective head as trusted head", sc.Class)
+				}
+			} else {
+				out.verdict = observe(sub.verifier(ctx, sc.New))
 			}
 		}()
-		if sc.Head {
-			g.mu.Lock()
-			g.armed, g.candidate = true, sc.New
-			g.mu.Unlock()
-			out.verdict = "VOther" // not observable on this path
-			hd, err := sy.Head(ctx)
-			if err != nil || hd == nil {
-				t.Logf("Syncer.Head failed on %s: %v", sc.Class, err)
-				out.verdict = "VPanic"
-			} else {
-				out.ret = w.reg.ID(hd.Hash())
-			}
-			if g.armed || g.trusted != w.chain[sc.subj()] {
-				t.Fatalf("%s: head request not made with the subjective head as trusted head", sc.Class)
-			}
-		} else {
-			out.verdict = observe(sub.verifier(ctx, sc.New))
+		g.mu.Lock()
+		out.calls = append([]call(nil), g.calls...)
+		g.calls = nil
+		g.budget = 0
+		g.mu.Unlock()
+		if hd, err := sy.Head(ctx); err == nil && hd != nil {
+			out.headID = w.reg.ID(hd.Hash())
 		}
-	}()
-	g.mu.Lock()
-	out.calls = append([]call(nil), g.calls...)
-	g.mu.Unlock()
-	if hd, err := sy.Head(ctx); err == nil && hd != nil {
-		out.headID = w.reg.ID(hd.Hash())
-	}
-	if err := st.Sync(ctx); err == nil {
-		if sh, err := st.Head(ctx); err == nil && sh != nil {
-			out.storeAfter = w.reg.ID(sh.Hash())
+		if err := st.Sync(ctx); err == nil {
+			if sh, err := st.Head(ctx); err == nil && sh != nil {
+				out.storeAfter = w.reg.ID(sh.Hash())
+			}
 		}
+		outs = append(outs, out)
 	}
 	_ = sy.Stop(ctx)
 	_ = st.Stop(ctx)
 	cancel()
 	synctest.Wait()
-	return out
+	return outs
 }
 
 func (w *world) gspecTerm(sc *scen) string {
@@ -422,12 +460,12 @@ func TestC15(t *testing.T) {
 			}
 			term := fmt.Sprintf("Case15 %s %s %s %s %s %s %s %s %d %s %d %s %d %d",
 				emit.Z(o.now.UnixNano()), emit.Z(int64(w.drift)), sc.Pol.term(reg), emit.B(sc.Head), reg.Term(o.storeBefore),
-				reg.Term(chain[sc.subj()]), reg.Term(sc.New), w.gspecTerm(sc), sc.Budget, o.verdict, o.ret, emit.List(cs), o.headID, o.storeAfter)
+				reg.Term(o.subjBefore), reg.Term(sc.New), w.gspecTerm(sc), sc.Budget, o.verdict, o.ret, emit.List(cs), o.headID, o.storeAfter)
 			var newH uint64
 			if sc.New != nil {
 				newH = sc.New.H
 			}
-			wr.Add(term, map[string]any{"class": sc.Class, "kind": sc.Kind, "store_head": sc.S, "subj": sc.subj(), "new_height": newH, "trust_range": sc.Pol.Range,
+			wr.Add(term, map[string]any{"class": sc.Class, "kind": sc.Kind, "store_head": o.storeBefore.H, "subj": o.subjBefore.H, "new_height": newH, "trust_range": sc.Pol.Range,
 				"modular": []uint64{sc.Pol.A, sc.Pol.B, sc.Pol.C, sc.Pol.M, sc.Pol.K}, "adj_soft": sc.Pol.AdjSoft, "budget": sc.Budget,
 				"overrides": len(sc.Over), "head_request_path": sc.Head, "answer": o.ret, "store_head_after": o.storeAfter, "verdict": o.verdict, "requests": len(o.calls), "head_after": o.headID}, sc.Class, len(o.calls) > 0)
 			wr.Count("verdict", strings.NewReplacer("(", "", ")", "").Replace(o.verdict))
@@ -437,7 +475,7 @@ func TestC15(t *testing.T) {
 				switch {
 				case sc.New != nil && o.headID == reg.ID(sc.New.Hash()):
 					wr.Count("head_path_outcome", "candidate became the head")
-				case o.headID == sc.subj():
+				case o.headID == reg.ID(o.subjBefore.Hash()):
 					wr.Count("head_path_outcome", "head unchanged")
 				default:
 					wr.Count("head_path_outcome", "an intermediate became the head")
@@ -446,15 +484,15 @@ func TestC15(t *testing.T) {
 				wr.Count("path", "subscriber verifier")
 			}
 			wr.Count("requests", bucket(len(o.calls)))
-			wr.Count("distance", bucket(int(newH)-int(sc.subj())))
-			if sc.Pre > sc.S {
+			wr.Count("distance", bucket(int(newH)-int(o.subjBefore.H)))
+			if o.subjBefore.H > o.storeBefore.H {
 				wr.Count("subjective_head", "pending target above the store head")
 			} else {
 				wr.Count("subjective_head", "store head")
 			}
 			outside := 0
 			for _, c := range o.calls {
-				if c.h <= sc.subj() || c.h >= newH {
+				if c.h <= o.subjBefore.H || c.h >= newH {
 					outside++
 				}
 			}
@@ -693,6 +731,83 @@ func TestC15(t *testing.T) {
 				}
 				emitCase(sc, w.run(sc))
 				headPath(sc)
+			}
+		}
+		// several deliveries to ONE Syncer, the getter's fault script changing in between: each delivery must be
+		// judged on its own (against the subjective head the earlier ones left) -- the Syncer keeps no memory of
+		// earlier candidates. In particular a candidate refused only because an intermediate could not be
+		// fetched must be accepted when it comes again and the getter serves the intermediates.
+		seqDs := []uint64{2, 3, 5, 9, 16, 33, 64}
+		if thorough {
+			seqDs = []uint64{2, 3, 4, 5, 6, 7, 8, 9, 12, 16, 17, 31, 33, 64, 65, 100, 200}
+		}
+		seqNo := 0
+		for _, D := range seqDs {
+			for _, tr := range []uint64{1, 2, D/3 + 1} {
+				if tr >= D {
+					continue
+				}
+				S := 1 + uint64(rng.Intn(3))
+				pre := uint64(0)
+				if (D+tr)%4 == 0 {
+					pre = S + 1
+				}
+				s0 := max(S, pre)
+				n := s0 + D
+				pol := polSpec{Range: tr, AdjSoft: (D+tr)%5 == 0}
+				fg := forge(n, 60)
+				fg2 := forge(s0+(D+1)/2, 61) // a forged candidate half way: its refusal leaves the head below n
+				polF := pol
+				polF.Forged = []H{fg, fg2}
+				big := bound(D+8) + 3
+				mk := func(kind string, nw H, budget int, head bool) *scen {
+					return &scen{S: S, Pre: pre, Pol: polF, New: nw, Budget: budget, Kind: "seq:" + kind, Head: head}
+				}
+				// requests of a single healthy delivery, to place the getter failure
+				L := len(w.run(mk("probe", chain[n], big, false)).calls)
+				ks := []int{0}
+				if L > 1 {
+					ks = append(ks, L-1)
+				}
+				if L > 2 {
+					ks = append(ks, L/2)
+				}
+				if thorough && D <= 12 {
+					ks = ks[:0]
+					for k := 0; k < L; k++ {
+						ks = append(ks, k)
+					}
+				}
+				var seqs [][]*scen
+				for _, k := range ks {
+					seqNo++
+					h1, h2 := seqNo%2 == 1, (seqNo/2)%2 == 1
+					// refused for a fetch failure, then the same candidate again with a healthy getter
+					seqs = append(seqs, []*scen{mk(fmt.Sprintf("valid+getterfail@%d", k), chain[n], k, h1), mk("same_again", chain[n], big, h2)})
+					// ... with a forged candidate refused in between
+					seqs = append(seqs, []*scen{mk(fmt.Sprintf("valid+getterfail@%d", k), chain[n], k, h2), mk("forged_between", fg2, big, h1),
+						mk("same_again", chain[n], big, !h1)})
+					// the forged candidate: fetch failure, then refused for real, then the valid one at its height
+					seqs = append(seqs, []*scen{mk(fmt.Sprintf("forged+getterfail@%d", k), fg, k, h1), mk("forged_again", fg, big, !h2), mk("valid_after", chain[n], big, h2)})
+				}
+				// a fetch failure, then a different (further) candidate, then the first one again (known by then)
+				seqs = append(seqs, []*scen{mk("valid+getterfail@0", chain[n], 0, false), mk("other_valid", chain[n+4], big, true), mk("first_again", chain[n], big, false)})
+				// the same forged candidate twice, a valid further one afterwards
+				seqs = append(seqs, []*scen{mk("forged", fg, big, true), mk("forged_again", fg, big, false), mk("valid_after", chain[n+2], big, true)})
+				// accepted, then delivered again
+				seqs = append(seqs, []*scen{mk("valid", chain[n], big, false), mk("same_again", chain[n], big, true)})
+				for si, steps := range seqs {
+					outs := w.runSeq(S, pre, steps)
+					for i, o := range outs {
+						path := "v"
+						if steps[i].Head {
+							path = "h"
+						}
+						steps[i].Class = fmt.Sprintf("seq/D%d/tr%d/%d/#%d:%s/%s", D, tr, si, i, strings.TrimPrefix(steps[i].Kind, "seq:"), path)
+						emitCase(steps[i], o)
+						wr.Count("delivery_number_on_the_same_syncer", fmt.Sprint(i+1))
+					}
+				}
 			}
 		}
 		// candidates that fail the direct verification hard, or are accepted directly: no getter use at all
